@@ -4,6 +4,8 @@
 package ir
 
 import (
+	"go/token"
+
 	"golang.org/x/tools/go/ssa"
 )
 
@@ -291,4 +293,50 @@ func IsExit(in ssa.Instruction) bool {
 func ReachableWithoutEdge(from Pt, target ssa.Instruction, eb *ssa.BasicBlock, es int) bool {
 	res := Reach([]Pt{from}, Opts{EdgeOK: func(b *ssa.BasicBlock, s int) bool { return !(b == eb && s == es) }, KeepNoReturn: true})
 	return res.Reached[target]
+}
+
+// RetVal returns the i-th result of a return, looking through the result
+// spill that go/ssa emits for functions with defers (*slot = v; rundefers; t = *slot; return t).
+func RetVal(ret *ssa.Return, i int) ssa.Value {
+	if i >= len(ret.Results) {
+		return nil
+	}
+	v := ret.Results[i]
+	u, ok := v.(*ssa.UnOp)
+	if !ok || u.Op != token.MUL {
+		return v
+	}
+	al, ok := u.X.(*ssa.Alloc)
+	if !ok {
+		return v
+	}
+	b := ret.Block()
+	var last ssa.Value
+	for _, in := range b.Instrs {
+		if st, ok := in.(*ssa.Store); ok && st.Addr == ssa.Value(al) {
+			last = st.Val
+		}
+	}
+	if last != nil {
+		return last
+	}
+	// single predecessor chain
+	for p := b; len(p.Preds) == 1; {
+		p = p.Preds[0]
+		for _, in := range p.Instrs {
+			if st, ok := in.(*ssa.Store); ok && st.Addr == ssa.Value(al) {
+				last = st.Val
+			}
+		}
+		if last != nil {
+			return last
+		}
+	}
+	return v
+}
+
+// ReturnsNil reports whether the return's (single / last error) result i is the nil constant.
+func ReturnsNil(ret *ssa.Return, i int) bool {
+	v := RetVal(ret, i)
+	return v != nil && IsNilConst(v)
 }
